@@ -164,7 +164,15 @@ def rule_lookup_shape(ctx):
                has_type and has_tag and base_ok,
                'lookup shape changed: typeMap=%s tagMap=%s baseTagSet=%s' % (has_type, has_tag, base_ok))
     f = ctx.func('codec.ber.decoder.SingleItemDecoder.__call__')
-    subs = [norm(n) for n in walk_own(f.node) if isinstance(n, ast.Subscript) and isinstance(n.ctx, ast.Load)]
+    subs = []
+    for n in walk_own(f.node):
+        if isinstance(n, ast.Subscript) and isinstance(n.ctx, ast.Load):
+            # a key chosen by a conditional expression stands for both keys
+            if isinstance(n.slice, ast.IfExp):
+                subs.append('%s[%s]' % (norm(n.value), norm(n.slice.body)))
+                subs.append('%s[%s]' % (norm(n.value), norm(n.slice.orelse)))
+            else:
+                subs.append(norm(n))
     ok = ('typeMap[chosenSpec.typeId]' in subs and 'tagMap[baseTagSet]' in subs and
           'tagMap[tagSet]' in subs and 'tagMap[tagSet[:1]]' in subs)
     ctx.ob('A1.lookup', f, 'typeMap[chosenSpec.typeId] / tagMap[baseTagSet] / tagMap[tagSet] / tagMap[tagSet[:1]]', ok,
